@@ -57,6 +57,9 @@ def gen_cases(rng, tier):
         nd = len(pools.effective_dice(hs))
         which, cls = pools.gen_which(rng, nd)
         cases.append({"kind": "rwc", "dice": hs, "which": which, "shape": shape, "cls": cls})
+        if which and any("i" in w for w in which) and rng.random() < 0.2:
+            # positions given as index-likes that are not ints (NumPy integers, objects with __index__)
+            cases[-1]["ityp"] = rng.choice(["npint64", "indexlike", "mixed"])
         if pools.int_valued(hs) and rng.random() < 0.25:
             # the same pool with float / Fraction outcomes, enumerated in the same interpreter right after (and, in
             # the reversed rerun, right before) its int twin: rolls carry the outcomes of THEIR dice
@@ -70,7 +73,7 @@ def impl_run(case):
     try:
         agg = {}
         types = set()
-        for roll, count in p.rolls_with_counts(*pools.py_which(case["which"])):
+        for roll, count in p.rolls_with_counts(*pools.py_which(case["which"], case.get("ityp"))):
             key = tuple(Fraction(x) for x in roll)
             agg[key] = agg.get(key, 0) + count
             types.update(type(x).__name__ for x in roll)
